@@ -9,46 +9,72 @@ DirStateWorkingTree.paths2ids; breezy/inter.py InterObject.get (selection).
 Cases: a pair of id-keyed trees (source, target) is generated in id space
 (random tree, then renames, reparenting, swaps, kind changes, deletions with
 and without re-homing the children, additions, id replacement at the same
-path, content / exec edits, unversioned files and directories in the target)
-and *realised* twice on real 2a trees: (a) committed source + working tree in
-the target state (built either by unversion+add with explicit ids or by real
-rename_one/unversion/add operations), compared as basis-vs-working-tree by
-InterTree.get (-> InterDirStateTree) and by InterInventoryTree forced;
-(b) both states committed, compared as revision trees by InterTree.get
-(-> InterCHKRevisionTree) and by InterInventoryTree forced.  Every pair is
-queried with filters None, [], and random subsets of <= 3 paths taken from both
-trees, the unversioned paths and unknown names, x include_unchanged x
-want_unversioned (x require_versioned).
+path, take-overs, directory replacement, content / exec edits, unversioned files
+and directories in the target; ~7 % of the scenarios are of the *burrow* family:
+an entry moves to below the - unchanged - entry that takes over its old path,
+`gen_burrow`) and *realised* twice on real 2a trees: (a) committed source +
+working tree in the target state (built either by unversion+add with explicit ids
+or by real rename_one/unversion/add operations), compared as
+basis-vs-working-tree by InterTree.get (-> InterDirStateTree) and by
+InterInventoryTree forced; (b) both states committed, compared as revision trees
+by InterTree.get (-> InterCHKRevisionTree) and by InterInventoryTree forced.
+Every pair is queried with filters None, [], and random subsets of <= 3 paths
+taken from both trees, the unversioned paths and unknown names, plus targeted
+single paths, x include_unchanged x want_unversioned (x require_versioned).
+Every iter_changes call runs under a deterministic step budget (id2path calls on
+the target tree + number of records, `run_iter`): non-termination is reported as
+`E:Diverged`, never by the clock (a 600 s wall-clock backstop per scenario is an
+infrastructure error, exit 2).
 
-T2: the Lean model (Model/C10.lean: `iterChanges generic|chk`) must give the
-    same sorted canonical record list as InterInventoryTree / InterCHKRevisionTree
-    on revision trees for every query, and as all four implementations for
-    unfiltered queries.  With a filter the dirstate comparison (compiled,
-    path-space selection) is only bounded by the model: model set <= reported
-    set <= unfiltered set.
+Probe-and-select: the model has both variants of the `_handle_precise_ids` loop
+(Model/C10.lean `preciseLoopG fx`; fx = F the loop before /repo e6ca8fc, fx = T with
+examined_file_ids).  `probe_variant` runs the three witness inputs of
+precise_never_terminates_witness / precise_duplicate_witness on the real code and
+sets the driver flag.
+
+T2: the Lean model (`iterChangesG fx generic|chk`) must give the same sorted
+    canonical record list as InterInventoryTree / InterCHKRevisionTree on revision
+    trees for every query (including `E:Diverged`), and as all four
+    implementations for unfiltered queries.  With a filter the dirstate
+    comparison (compiled, path-space selection) is only bounded by the model:
+    model set <= reported set <= unfiltered set.  Per (scenario, filter):
+    `app` (applyChanges + wf + equals-target of the model's result) against
+    py_apply / wf_tree on the *real* records; `wf` on the applied trees that are
+    not well formed (and a sample of the others); per scenario `hyp` (the
+    hypotheses noSlotOccupant / noPathOccupant / sameRoot / wf of the partial
+    theorems) against their Python twins.
 Oracle (independent of the model, on the real outputs): every record is the
     true record of its id (recomputed from the generated trees); no id is
-    reported twice; unfiltered: applying the records to the source gives the
-    target; filtered: subset of the unfiltered result, contains every change
-    whose source or target path is inside a filter path, applying it to the
-    source yields a well-formed tree (parents exist and are directories, no
-    duplicate sibling names, everything reaches the root); include_unchanged
-    adds only true no-op records; optimised == generic.
+    reported twice; termination; unfiltered: applying the records to the source
+    gives the target; filtered: subset of the unfiltered result, contains every
+    change whose source or target path is inside a filter path, every ancestor
+    (in the target) of a reported entry is reported or unchanged (O8,
+    filter_ancestor_closed), applying it to the source yields a well-formed
+    tree (parents exist and are directories, no duplicate sibling names,
+    everything reaches the root); include_unchanged adds only true no-op
+    records; optimised == generic.  The partial theorems are read on the real
+    outputs: with noSlotOccupant the applied tree must be well formed without
+    any known-family excuse (filter_wf_partial); with the fix (or with
+    noPathOccupant) no comparison may diverge.
 
 Known defects of the unchanged code found by this check (reported with a family
-slug computed from the failing input; see the builder's report):
- displaced-entry-not-reported, precise-ids-reemits-displaced-entry,
- generic-include-unchanged-widens-closure, chk-unchanged-source-path-under-renamed-directory,
+slug computed from the failing input):
+ displaced-entry-not-reported (only when some id takes a (parent id, name) slot held
+ by another id in the source), generic-include-unchanged-widens-closure,
+ chk-unchanged-source-path-under-renamed-directory,
  generic-wt-source-entry-not-found (InterInventoryTree on a dirstate working tree),
- and in the compiled dirstate comparison: dirstate-path-closure-superset,
- dirstate-duplicate-under-relocated-path, dirstate-lstat-below-non-directory,
+ and in the compiled dirstate comparison: dirstate-path-closure-superset and
+ dirstate-duplicate-under-relocated-path (both only when every offending id lies at or
+ below a path held by different ids in the two trees), dirstate-lstat-below-non-directory,
  dirstate-displaced-entry-not-reported, dirstate-unversioned-at-formerly-versioned-path.
+Fixed in /repo (e6ca8fc) and therefore reported as plain violations if they come back:
+ precise-ids-closure-never-terminates, precise-ids-reemits-displaced-entry.
 
 Mutants tried in a scratch worktree (each run with the families above treated
 as known; "oracle" = concrete failing input, "T2" = model/implementation
-mismatch):
+mismatch).  First round (before the fix):
  m1 _changes_from_entries: drop `or executable[0] != executable[1]`            -> oracle (apply != target)
- m2 _handle_precise_ids: follow the parent only of *changed* entries           -> T2 (2 cases / 60 scenarios)
+ m2 _handle_precise_ids: follow the parent only of *changed* entries           -> oracle (O8: ancestor not reported) + T2
  m3 _handle_precise_ids: drop the "stopped being a directory" children step    -> oracle (dangling parent)
  m4 iter_changes: removed-entries loop skips top-level directories             -> oracle (apply != target)
  m5b InterCHKRevisionTree: parents of selected changes not fed to the closure  -> oracle (dangling parent) + chk != generic
@@ -56,8 +82,16 @@ mismatch):
  m7 _find_children_across_trees: children only from the first tree             -> oracle (changes under filter missing)
  m8 InterObject.get: optimisers not tried most-recent-first                    -> oracle (selection)
  m9 _handle_precise_ids: displaced source entry not added                      -> oracle (duplicate sibling names) + T2
- harmless (stay clean): iterate `sorted(current_ids, reverse=True)`; InterCHKRevisionTree without the
- discarded_changes stash (results are recomputed, same output)
+Second round (on top of the examined-ids fix):
+ M0 the fix reverted                                                           -> oracle (does not terminate / id twice), model variant fx=F selected, 0 mismatches
+ M2 `examined_file_ids.update(current_ids)` dropped (= only emitted ids remembered, the first candidate fix)
+                                                                               -> oracle (does not terminate, burrow variant B)
+ M3 source.path2id occupants never added                                       -> oracle (duplicate sibling names) + T2
+ M4 = m2 on the fixed loop                                                     -> oracle (O8) + T2
+ M5 = m3 on the fixed loop                                                     -> oracle (parent missing) + T2
+ stay clean: iterate `sorted(current_ids, reverse=True)`; InterCHKRevisionTree without the discarded_changes
+ stash; M1 pending ids not filtered against examined_file_ids (the occupants filter alone breaks every cycle
+ the generator reaches; no observable difference)
 """
 import os
 import shutil
@@ -67,17 +101,24 @@ from vlib import env
 THEOREMS = [
     "apply_changes", "unchanged_noop", "include_unchanged_partition",
     "filter_subset", "filter_complete", "filter_parent_closed",
+    "chk_eq_generic", "require_versioned_spec", "mem_unversionedOf", "select_complete",
+    "precise_never_terminates_witness", "fixed_loop_terminates", "precise_terminates_partial",
+    "iterChangesG_unfixed", "filter_subset_complete_g", "filter_ancestor_closed",
+    "filter_wf_partial", "filter_wf_partial_unfixed", "no_duplicates",
     "precise_duplicate_witness", "displaced_entry_witness", "chk_unchanged_path_witness",
-    "include_unchanged_widens_witness",
+    "include_unchanged_widens_witness", "fixed_loop_keeps_other_defects_witness",
 ]
 RULE = ("scenario = (source tree, target tree, unversioned paths, realisation mode); case = (scenario, filter, "
         "include_unchanged, want_unversioned, require_versioned); distinct by canonical trees + query; "
         "non-trivial = the pair has at least one change and the query has a non-empty filter or >= 2 changes")
 ASSUMPTIONS = [
-    "file ids, names and contents come from small alphabets; trees have <= 9 entries (the theorems are unbounded)",
+    "file ids, names and contents come from small alphabets; trees have <= 12 entries (the theorems are unbounded)",
     "the compiled dirstate comparison (bzrformats) is exercised, not modelled: with a path filter it is bounded by the model, not predicted",
+    "non-termination of the real comparison is recognised by a step budget (3(n+2)^2+64 id2path calls, 4n+16 records for n entries); "
+    "the largest share of it a terminating query used is recorded as step_budget_max_used",
 ]
-TRUSTED = ["the realisation of generated id-keyed trees on real 2a trees (checked per scenario by reading both trees back)"]
+TRUSTED = ["the realisation of generated id-keyed trees on real 2a trees (checked per scenario by reading both trees back)",
+           "probe_variant: the choice between the two proved loop variants is made by running three witness inputs on the real code"]
 
 ROOT = "r"
 NAMES = ["a", "b", "c", "d"]
@@ -306,6 +347,77 @@ def mutate(rng, src, nmut):
     return t, log
 
 
+def _graft(t, i, parent, name, kind="directory", content=""):
+    t[i] = dict(parent=parent, name=name, kind=kind, content=content, exec=False)
+
+
+def gen_burrow(rng, big=False):
+    """the *burrow* family: an entry moves to below the entry that takes over its old path.
+    Variant A: siblings a/ (with a child directory x named n) and b/ (with a child o, also
+    named n); in the target b makes room, a takes b's name - so the unchanged x now sits at
+    o's old path - and o moves into x.  Variant B: a new directory takes the place of g/ and
+    g moves into it under the name of its own child i, whose child o has the same name again:
+    i and o are unchanged and i sits at o's old path.  Both on top of a random tree, followed
+    by random further edits."""
+    for _ in range(50):
+        src = gen_tree(rng, rng.randint(0, 5 if big else 3))
+        g = rng.choice(dirs(src))
+        free = [n for n in NAMES if n not in {src[c]["name"] for c in children(src, g)}]
+        n = rng.choice(NAMES)
+        variant = rng.choice("AAB")
+        if variant == "A":
+            if len(free) < 2:
+                continue
+            n1, n2 = rng.sample(free, 2)
+            _graft(src, "ka", g, n1)
+            _graft(src, "kx", "ka", n)
+            _graft(src, "kb", g, n2)
+            kind = rng.choice(["file", "directory", "directory", "symlink"])
+            _graft(src, "ko", "kb", n, kind, rng.choice(CONTENTS if kind == "file" else TARGETS) if kind != "directory" else "")
+            if rng.random() < 0.4:
+                e = new_entry(rng, src, rng.choice(["ka", "kx", "kb"]))
+                if e:
+                    src["ke"] = e
+            tgt = {i: dict(e) for i, e in src.items()}
+            how = rng.choice(["rename", "rename", "delete", "reparent"])
+            if how == "rename":
+                left = [m for m in NAMES if m not in (n1, n2) and m not in {tgt[c]["name"] for c in children(tgt, g)}]
+                if not left:
+                    continue
+                tgt["kb"]["name"] = rng.choice(left)
+            elif how == "reparent":
+                tgt["kb"]["parent"], tgt["kb"]["name"] = "kx", rng.choice([m for m in NAMES if m != n] or NAMES)
+            tgt["ka"]["name"] = n2
+            tgt["ko"]["parent"] = "kx"
+            used = {tgt[c]["name"] for c in children(tgt, "kx") if c != "ko"}
+            tgt["ko"]["name"] = rng.choice([m for m in NAMES if m not in used])
+            if how == "delete":
+                for c in children(tgt, "kb"):
+                    delete_subtree(tgt, c)
+                del tgt["kb"]
+            into = "kx"
+        else:
+            if not free:
+                continue
+            n0 = rng.choice(free)
+            _graft(src, "kg", g, n0)
+            _graft(src, "ki", "kg", n)
+            kind = rng.choice(["file", "directory", "directory"])
+            _graft(src, "ko", "ki", n, kind, rng.choice(CONTENTS) if kind == "file" else "")
+            tgt = {i: dict(e) for i, e in src.items()}
+            _graft(tgt, "kh", g, n0)
+            tgt["kg"]["parent"], tgt["kg"]["name"] = "kh", n
+            into = "ki"
+        if rng.random() < 0.6:
+            e = new_entry(rng, tgt, into, kind="file")
+            if e:
+                tgt["kf"] = e
+        tgt, log = mutate(rng, tgt, rng.choice([0, 0, 1, 2]))
+        if not wf_tree(src) and not wf_tree(tgt):
+            return src, tgt, ["burrow" + variant] + log
+    return None
+
+
 def gen_extras(rng, tgt, n):
     """top-level unversioned files / directories of the target: {path: kind}"""
     out = {}
@@ -504,14 +616,52 @@ def canon_change(c):
                      _s(c.kind[0]), _s(c.kind[1]), _s(c.executable[0]), _s(c.executable[1])])
 
 
-def run_iter(inter, **kw):
+class Diverged(BaseException):
+    """raised by the step budget below: the comparison does not terminate"""
+
+
+BUDGET_USED = [0.0]      # largest fraction of the step budget a *terminating* query used (evidence)
+
+
+def step_budget(size):
+    """`_handle_precise_ids` calls target.id2path once per needed id and round.  A terminating
+    run makes at most (ids) x (rounds <= ids x depth) such calls; the budget is far above that
+    and independent of the machine's speed."""
+    return 3 * (size + 2) ** 2 + 64
+
+
+def run_iter(inter, size=20, **kw):
+    """sorted canonical records of one iter_changes call.  Non-termination is detected
+    deterministically (a budget of id2path calls on the target tree and of records), never by
+    the clock: `E:Diverged`."""
     from breezy import errors
+    tgt = inter.target
+    limit = step_budget(size)
+    calls = [0]
+    orig = tgt.id2path
+
+    def counting(*a, **k):
+        calls[0] += 1
+        if calls[0] > limit:
+            raise Diverged()
+        return orig(*a, **k)
+    tgt.id2path = counting
     try:
-        return sorted(canon_change(c) for c in inter.iter_changes(**kw))
+        out = []
+        for c in inter.iter_changes(**kw):
+            out.append(canon_change(c))
+            if len(out) > 4 * size + 16:
+                raise Diverged()
+        BUDGET_USED[0] = max(BUDGET_USED[0], calls[0] / limit)
+        return sorted(out)
+    except Diverged:
+        return ["E:Diverged"]
     except errors.PathsNotVersionedError as e:
         return ["E:PathsNotVersioned:" + ",".join(sorted(p or "." for p in e.paths))]
     except Exception as e:
         return ["E:" + type(e).__name__ + ":" + str(e)[:120].replace("\n", " ")]
+    finally:
+        del tgt.id2path
 
 
 def true_record(src, tgt, sp, tp, i):
@@ -589,9 +739,75 @@ def b(x):
     return "T" if x else "F"
 
 
+FX = ["F"]       # which variant of the _handle_precise_ids loop the real code has (probe_variant)
+
+
 def model_line(impl, q, sc):
-    return "ic %s %s %s %s %s %s %s %s" % (impl, b(q["incl"]), b(q["unv"]), b(q["reqv"]), enc_filter(q["filt"]),
-                                            enc_tree(sc["src"]), enc_tree(sc["tgt"]), enc_extras(sc["extras"]))
+    return "ic %s %s %s %s %s %s %s %s %s" % (FX[0], impl, b(q["incl"]), b(q["unv"]), b(q["reqv"]), enc_filter(q["filt"]),
+                                               enc_tree(sc["src"]), enc_tree(sc["tgt"]), enc_extras(sc["extras"]))
+
+
+def app_line(impl, filt, sc):
+    return "app %s %s %s %s %s" % (FX[0], impl, enc_filter(filt), enc_tree(sc["src"]), enc_tree(sc["tgt"]))
+
+
+def no_slot_occupant(src, tgt):
+    """no id takes, in the target, a (parent id, name) slot another id holds in the source"""
+    slots = {}
+    for j, f in src.items():
+        slots.setdefault((f["parent"], f["name"]), set()).add(j)
+    return all(slots.get((e["parent"], e["name"]), {i}) <= {i} for i, e in tgt.items())
+
+
+def no_path_occupant(src, tgt, sp, tp):
+    """no target path is the source path of another id"""
+    by = {}
+    for j, p_ in sp.items():
+        by.setdefault(p_, set()).add(j)
+    return all(by.get(tp[i], {i}) <= {i} for i in tgt)
+
+
+def _D(parent, name):
+    return dict(parent=parent, name=name, kind="directory", content="", exec=False)
+
+
+PROBES = dict(
+    # precise_never_terminates_witness (A), (B) and precise_duplicate_witness
+    A=(dict(r=_D(None, ""), a=_D("r", "a"), x=_D("a", "x"), b=_D("r", "b"), o=_D("b", "x")),
+       dict(r=_D(None, ""), a=_D("r", "b"), x=_D("a", "x"), b=_D("r", "c"), o=_D("x", "y")), ["b/x/y"]),
+    B=(dict(r=_D(None, ""), g=_D("r", "g"), i=_D("g", "n"), o=_D("i", "n")),
+       dict(r=_D(None, ""), h=_D("r", "g"), g=_D("h", "n"), i=_D("g", "n"), o=_D("i", "n"),
+            f=dict(parent="i", name="f", kind="file", content="x", exec=False)), ["g/n/n/f"]),
+    dup=(dict(r=_D(None, ""), o=_D("r", "d"), p=_D("r", "z")),
+         dict(r=_D(None, ""), o=_D("r", "q"), p=_D("r", "d"), f=dict(parent="p", name="f", kind="file", content="x", exec=False)),
+         ["d/f", "q"]),
+)
+
+
+def probe_variant(ctx):
+    """which variant of the `_handle_precise_ids` loop does the tree under test have?  The three
+    witness inputs are run on the real InterInventoryTree: the unchanged code diverges on A and B
+    and reports `o` twice on dup; the loop with the examined-ids fix does neither."""
+    seen = {}
+    for name, (src, tgt, filt) in sorted(PROBES.items()):
+        sc = dict(src=src, tgt=tgt, extras={}, mode="readd", log=[], idx="probe-" + name)
+        res = _scenario_job((sc, [dict(filt=filt, incl=False, unv=False, reqv=False)]))
+        if "infra" in res:
+            raise env.InfraError(res["infra"])
+        if "error" in res or not res.get("realized"):
+            seen[name] = "error"
+            continue
+        out = res["out"][0]["grev"]
+        ids = [r.split("|", 1)[0] for r in out]
+        seen[name] = "diverges" if out == ["E:Diverged"] else "duplicate" if len(set(ids)) < len(ids) else "ok"
+    if all(v == "ok" for v in seen.values()):
+        FX[0] = "T"
+        ctx.extra["loop_variant"] = "with the examined-ids fix (fixed_loop_terminates applies)"
+    else:
+        FX[0] = "F"
+        ctx.extra["loop_variant"] = "unchanged code" if (seen["A"], seen["B"], seen["dup"]) == ("diverges", "diverges", "duplicate") \
+            else "neither model variant: %r (modelled as unchanged)" % (seen,)
+    ctx.count("loop-variant:fx=" + FX[0])
 
 
 # --------------------------------------------------------------------------
@@ -599,6 +815,11 @@ def model_line(impl, q, sc):
 
 def gen_scenario(rng, idx, big=False):
     while True:
+        if rng.random() < 0.07:
+            got = gen_burrow(rng, big)
+            if got is not None:
+                src, tgt, log = got
+                break
         src = gen_tree(rng, rng.randint(1, 9 if big else 7))
         tgt, log = mutate(rng, src, rng.choice([0, 1, 1, 2, 2, 3, 3, 4, 5]))
         if not wf_tree(src) and not wf_tree(tgt):
@@ -645,6 +866,7 @@ def run_scenario(sc, queries):
     src, tgt, extras = sc["src"], sc["tgt"], sc["extras"]
     wt, r1 = realize(src, tgt, extras, sc["mode"])
     res = dict(impls={}, out=[])
+    size = len(src) + len(tgt)
     try:
         basis = wt.basis_tree()
         rs, rt = read_tree(basis), read_tree(wt)
@@ -659,8 +881,8 @@ def run_scenario(sc, queries):
             for q, o in zip(queries, outs):
                 kw = dict(specific_files=q["filt"], include_unchanged=q["incl"], want_unversioned=q["unv"],
                           require_versioned=q["reqv"])
-                o["ds"] = run_iter(InterTree.get(basis, wt), **kw)
-                o["gwt"] = run_iter(InterInventoryTree(basis, wt), **kw)
+                o["ds"] = run_iter(InterTree.get(basis, wt), size, **kw)
+                o["gwt"] = run_iter(InterInventoryTree(basis, wt), size, **kw)
         r2 = wt.commit("tgt")
         repo = wt.branch.repository
         t1, t2 = repo.revision_tree(r1), repo.revision_tree(r2)
@@ -669,23 +891,41 @@ def run_scenario(sc, queries):
             for q, o in zip(queries, outs):
                 kw = dict(specific_files=q["filt"], include_unchanged=q["incl"], want_unversioned=q["unv"],
                           require_versioned=q["reqv"])
-                o["chk"] = run_iter(InterTree.get(t1, t2), **kw)
-                o["grev"] = run_iter(InterInventoryTree(t1, t2), **kw)
+                o["chk"] = run_iter(InterTree.get(t1, t2), size, **kw)
+                o["grev"] = run_iter(InterInventoryTree(t1, t2), size, **kw)
         res["out"] = outs
+        res["budget_used"] = BUDGET_USED[0]
         return res
     finally:
         shutil.rmtree(wt.basedir, ignore_errors=True)
 
 
+class _WallClock(BaseException):
+    pass
+
+
+def _alarm(*_a):
+    raise _WallClock()
+
+
 def _scenario_job(job):
+    import signal
     sc, queries = job
+    # backstop only: non-termination of the comparison is detected by the step budget of
+    # run_iter; a scenario that still exceeds this is an infrastructure problem (exit 2)
+    signal.signal(signal.SIGALRM, _alarm)
+    signal.alarm(600)
     try:
         return run_scenario(sc, queries)
     except (KeyboardInterrupt, SystemExit):
         raise
-    except BaseException as e:  # realisation failed (counted); pyo3 panics are BaseExceptions
+    except _WallClock:
+        return dict(infra="scenario exceeded 600 s wall clock")
+    except BaseException as e:  # realisation failed; pyo3 panics are BaseExceptions
         import traceback
         return dict(error="%s: %s" % (type(e).__name__, e), tb=traceback.format_exc()[-1500:])
+    finally:
+        signal.alarm(0)
 
 
 # --------------------------------------------------------------------------
@@ -722,6 +962,15 @@ def oracle(ctx, sc, q, o, unfiltered):
                     ctx.violation(dict(case, impl=impl), tag + "wrong path list in %s, expected %r" % (out[0], missing))
                 continue
             fam = None
+            if out[0] == "E:Diverged":
+                # _handle_precise_ids never finishes: an entry that moved to below the unchanged
+                # entry now sitting at its old path is looked up, and asks for that entry, for ever
+                # (fixed in /repo by the examined-ids commit: reported plainly, never as a known family;
+                # the slug is kept in the text)
+                slug = " [precise-ids-closure-never-terminates]" if impl != "ds" and filt and _burrowed(src, tgt, sp, tp, truth) else ""
+                ctx.violation(dict(case, impl=impl), tag + "iter_changes does not terminate (it was stopped after %d id2path "
+                              "calls / %d records)%s" % (step_budget(len(src) + len(tgt)), 4 * (len(src) + len(tgt)) + 16, slug))
+                continue
             if impl == "ds" and filt and "lstat(" in out[0] and any(
                     _under_nondir(tgt, tp, extras, p) for p in list(filt) + list(sp.values())):
                 fam = "dirstate-lstat-below-non-directory"
@@ -736,11 +985,13 @@ def oracle(ctx, sc, q, o, unfiltered):
         dups = sorted({i for i in ids if ids.count(i) > 1})
         if dups:
             fam = None
-            if impl == "ds" and filt and _has_relocation(src, tgt):
+            if impl == "ds" and filt and all(_under_relocated_path(sp, tp, d) for d in dups):
                 fam = "dirstate-duplicate-under-relocated-path"
-            elif filt and all(_displaces(src, tgt, sp, tp, d) for d in dups):
-                fam = "precise-ids-reemits-displaced-entry"
-            ctx.violation(dict(case, impl=impl), tag + "ids reported twice: %r" % dups, family=fam)
+            slug = ""
+            if fam is None and filt and all(_displaces(src, tgt, sp, tp, d) for d in dups):
+                # (fixed in /repo by the examined-ids commit: reported plainly)
+                slug = " [precise-ids-reemits-displaced-entry]"
+            ctx.violation(dict(case, impl=impl), tag + "ids reported twice: %r%s" % (dups, slug), family=fam)
         # O-rec: every record is the true record of its id
         wrong = []
         for r in sorted(set(ver)):
@@ -791,7 +1042,9 @@ def oracle(ctx, sc, q, o, unfiltered):
             bad = wf_tree(applied)
             if bad:
                 fam = None
-                if all(x.startswith("duplicate name") for x in bad):
+                # (filter_wf_partial: impossible for the generic / CHK comparison unless some id takes a
+                # (parent id, name) slot that another id holds in the source)
+                if all(x.startswith("duplicate name") for x in bad) and not no_slot_occupant(src, tgt):
                     if impl == "ds":
                         # the compiled comparison does not look for displaced entries at all
                         if _displaced_unreported(src, tgt, sp, tp, em_changed, filt, any_id=True):
@@ -800,6 +1053,17 @@ def oracle(ctx, sc, q, o, unfiltered):
                         fam = "displaced-entry-not-reported"
                 ctx.violation(dict(case, impl=impl), tag + "applying the filtered changes to the source gives an ill-formed tree: %s" % bad[:3],
                               family=fam)
+            # O8 (filter_ancestor_closed, read on the real output): every ancestor, in the target, of a
+            # reported entry is reported too or is no change at all
+            lost = set()
+            for i in em_changed:
+                a = tgt[i]["parent"] if i in tgt else None
+                while a is not None and a in tgt:
+                    if a not in emitted and truth[a][1]:
+                        lost.add(a)
+                    a = tgt[a]["parent"]
+            if lost:
+                ctx.violation(dict(case, impl=impl), tag + "ancestors of reported entries are changed but not reported: %r" % sorted(lost))
             if q["unv"] and impl in ("ds", "gwt"):
                 need = {p for p in extras if inside_any(filt, p)}
                 got = {r.split("|")[2] for r in unv}
@@ -848,7 +1112,8 @@ def oracle(ctx, sc, q, o, unfiltered):
             co, _ = split(o[key])
             if co != cg:
                 fam = None
-                if filt and key == "ds" and cg <= co and _has_relocation(src, tgt):
+                if filt and key == "ds" and cg <= co and all(
+                        _under_relocated_path(sp, tp, r.split("|", 1)[0]) for r in co - cg):
                     fam = "dirstate-path-closure-superset"
                 ctx.violation(dict(case, impl=key + "/grev"), "%s and InterInventoryTree report different changes: only optimised %r, "
                               "only generic %r" % (names[key], sorted(co - cg)[:3], sorted(cg - co)[:3]), family=fam)
@@ -867,8 +1132,31 @@ def _under_nondir(tgt, tp, extras, p):
     return False
 
 
-def _has_relocation(src, tgt):
-    return any(i in tgt and (e["parent"], e["name"]) != (tgt[i]["parent"], tgt[i]["name"]) for i, e in src.items())
+def _burrowed(src, tgt, sp, tp, truth):
+    """some entry o sits, in the target, below an *unchanged* entry x (x != o) whose target
+    path is o's source path"""
+    for o in src:
+        if o in tgt and sp[o] != tp[o]:
+            for x in tgt:
+                if x != o and x in src and not truth[x][1] and tp[x] == sp[o] and (
+                        tp[x] == "" or tp[o].startswith(tp[x] + "/")):
+                    return True
+    return False
+
+
+def _under_relocated_path(sp, tp, i):
+    """the source or target path of i is, or lies below, a path that is held by different ids
+    (or by an id and by nothing) in the two trees: i itself or a directory above it was moved,
+    renamed, replaced or removed"""
+    by_s = {v: k for k, v in sp.items()}
+    by_t = {v: k for k, v in tp.items()}
+    for pth in ([sp[i]] if i in sp else []) + ([tp[i]] if i in tp else []):
+        parts = pth.split("/") if pth else []
+        for k in range(1, len(parts) + 1):
+            pre = "/".join(parts[:k])
+            if by_s.get(pre) != by_t.get(pre):
+                return True
+    return False
 
 
 def _displaces(src, tgt, sp, tp, d):
@@ -925,10 +1213,16 @@ def _chk_family(chk, grev, q):
 # --------------------------------------------------------------------------
 
 def check_scenario(ctx, sc, queries, res, cases, lines, impls, outs):
+    if "infra" in res:
+        raise env.InfraError(res["infra"])
     if "error" in res:
+        # building the trees or reading them back crashed: never on the unchanged code
         ctx.count("scenario-error:" + res["error"].split(":")[0])
         ctx.extra.setdefault("scenario_errors", []).append(res["error"][:300])
+        ctx.mismatch(dict(src=sc["src"], tgt=sc["tgt"], mode=sc["mode"]), impl=res["error"][:300] + " | " + res.get("tb", "")[-600:],
+                     model="the generated trees can be built, committed and read back", tie="realisation")
         return
+    ctx.extra["step_budget_max_used"] = round(max(ctx.extra.get("step_budget_max_used", 0.0), res.get("budget_used", 0.0)), 4)
     if not res["realized"]:
         ctx.count("realize-mismatch")
         ctx.mismatch(dict(src=sc["src"], tgt=sc["tgt"], mode=sc["mode"]), impl=res["readback"], model="generated trees", tie="realisation")
@@ -941,7 +1235,18 @@ def check_scenario(ctx, sc, queries, res, cases, lines, impls, outs):
         ctx.violation(dict(src=sc["src"], tgt=sc["tgt"]), "InterTree.get selected %r (expected InterDirStateTree for basis/working tree "
                       "and InterCHKRevisionTree for 2a revision trees)" % (res["impls"],))
     sp, tp = paths(sc["src"]), paths(sc["tgt"])
-    nchanged = sum(1 for i in set(sc["src"]) | set(sc["tgt"]) if true_record(sc["src"], sc["tgt"], sp, tp, i)[1])
+    truth = {i: true_record(sc["src"], sc["tgt"], sp, tp, i) for i in set(sc["src"]) | set(sc["tgt"])}
+    nchanged = sum(1 for i in truth if truth[i][1])
+    # ---- the hypotheses of the partial theorems, computed here and by the model -------------
+    noslot, nopath = no_slot_occupant(sc["src"], sc["tgt"]), no_path_occupant(sc["src"], sc["tgt"], sp, tp)
+    ctx.count("hyp:noSlotOccupant=%s" % b(noslot))
+    ctx.count("hyp:noPathOccupant=%s" % b(nopath))
+    hcase = dict(src=sc["src"], tgt=sc["tgt"], impl="hyp")
+    cases.append(hcase)
+    lines.append("hyp %s %s" % (enc_tree(sc["src"]), enc_tree(sc["tgt"])))
+    impls.append("T T T %s %s" % (b(noslot), b(nopath)))
+    outs.append(None)
+    sent_app = set()
     sib = {}
     for q, o in zip(queries, res["out"]):
         if not q["incl"]:
@@ -973,6 +1278,43 @@ def check_scenario(ctx, sc, queries, res, cases, lines, impls, outs):
             lines.append(model_line("g", dict(q, incl=False, unv=False), sc))
             impls.append(None)
             outs.append(o)
+        # ---- applying the reported records: applyChanges / wf against py_apply / wf_tree ------
+        fkey = enc_filter(q["filt"])
+        if not q["incl"] and not q["unv"] and fkey not in sent_app and not (q["reqv"] and any(
+                p_ not in sp.values() and p_ not in tp.values() for p_ in (q["filt"] or []))):
+            sent_app.add(fkey)
+            for impl, key in (("g", "grev"), ("c", "chk")):
+                out = o[key]
+                if is_err(out):
+                    exp = out[0] if out[0] == "E:Diverged" else None
+                    applied = None
+                else:
+                    ver = [r for r in sorted(set(out)) if not r.startswith("~|")]
+                    if any(r.split("|", 1)[0] not in truth or truth[r.split("|", 1)[0]][0] != r for r in ver):
+                        continue        # wrong records: reported by the oracle
+                    applied = py_apply(sc["src"], sc["tgt"], ver)
+                    exp = "T %s %s" % (b(not wf_tree(applied)), b(applied == sc["tgt"]))
+                if exp is not None:
+                    cases.append(dict(case, impl=key + "/apply"))
+                    lines.append(app_line(impl, q["filt"], sc))
+                    impls.append(exp)
+                    outs.append(None)
+                    ctx.count("apply:" + exp.replace(" ", ""))
+                if applied is not None and impl == "g" and applied and (wf_tree(applied) or ctx.rng.random() < 0.15):
+                    # the model's `wf` on trees that are not well formed (and a sample of the others)
+                    cases.append(dict(case, impl="wf", tree=applied))
+                    lines.append("wf " + enc_tree(applied))
+                    impls.append(b(not wf_tree(applied)))
+                    outs.append(None)
+        # ---- the partial theorems, read on the real outputs ------------------------------------
+        if q["filt"] and not q["incl"]:
+            for key in ("grev", "chk"):
+                if o[key] == ["E:Diverged"] and nopath and FX[0] == "F":
+                    ctx.violation(dict(case, impl=key), "%s: does not terminate although no target path is occupied in the source by "
+                                  "another id (precise_terminates_partial)" % key)
+                if o[key] == ["E:Diverged"] and FX[0] == "T":
+                    ctx.violation(dict(case, impl=key), "%s: does not terminate although the loop has the examined-ids fix "
+                                  "(fixed_loop_terminates)" % key)
 
 
 def finish(ctx, cases, lines, impls, outs_by_case):
@@ -1005,6 +1347,7 @@ def run(ctx, nscen=None):
     os.environ["RUST_BACKTRACE"] = "0"
     nscen = nscen or ctx.pick(110, 400)
     nfilters = ctx.pick(5, 8)
+    probe_variant(ctx)
     jobs = []
     for sc in corpus_scenarios():
         jobs.append((sc, gen_queries(ctx.rng, sc, nfilters) + sc.get("queries", [])))
@@ -1037,6 +1380,7 @@ def replay(ctx, case):
     sc = dict(src=case["src"], tgt=case["tgt"], extras=case.get("extras", {}), mode=case.get("mode", "readd"), log=[], idx="replay")
     q = case["query"]
     queries = [dict(q, incl=False), q]
+    probe_variant(ctx)
     res = run_scenario(sc, queries)
     if not res.get("realized"):
         return dict(error="could not realise the trees", readback=res.get("readback"))
